@@ -277,6 +277,32 @@ def check(tier):
                             rep.fail('C05.compare', cfile, cfn.name, src(comp)[:140], st.lineno,
                                      'the check position is compared with %d alternatives (%s): besides the character %s() generates, validate() accepts '
                                      'the others for the same payload' % (len(side.elts), ', '.join(src(e_)[:40] for e_ in side.elts), g))
+                    if okop and isinstance(op, ast.NotIn) and comp.comparators[0] is call:
+                        # `x not in gen(p)`: membership in the string the generator returns; that string has to be built from pieces of one
+                        # character each (a constant string subscripted by an index, another format's single check character), otherwise a
+                        # longer piece (str() of a number that can reach 10) lets every one of its characters pass
+                        gfn_ = prog.mods[gkey[0]].funcs[gkey[1]]
+                        from ..match import resolve_locals
+                        bad_piece = None
+                        for r_ in [x for x in ast.walk(gfn_) if isinstance(x, ast.Return) and x.value is not None]:
+                            pieces, todo = [], [resolve_locals(gfn_, r_.value)]
+                            while todo:
+                                e_ = todo.pop()
+                                if isinstance(e_, ast.BinOp) and isinstance(e_.op, ast.Add):
+                                    todo += [e_.left, e_.right]
+                                else:
+                                    pieces.append(e_)
+                            for e_ in pieces:
+                                one = (isinstance(e_, ast.Subscript) and not isinstance(e_.slice, ast.Slice) and isinstance(e_.value, ast.Constant)
+                                       and isinstance(e_.value.value, str)) \
+                                    or (isinstance(e_, ast.Constant) and isinstance(e_.value, str) and len(e_.value) == 1) \
+                                    or (isinstance(e_, ast.Call) and src(e_.func).split('.')[-1] == 'calc_check_digit')
+                                if not one:
+                                    bad_piece = bad_piece or e_
+                        rep.check(bad_piece is None, 'C05.compare', rel(prog.mods[gkey[0]].path), gkey[1], src(comp)[:100], st.lineno,
+                                  'validate() accepts any character of the string %s() returns, and the piece `%s` of that string is not one character by '
+                                  'construction: when it is longer, each of its characters is accepted in the check position'
+                                  % (gkey[1], src(bad_piece)[:50] if bad_piece is not None else ''), what='%s returns single-character pieces' % gkey[1])
                     if okop:
                         disjoint_check(rep, prog, cfile, cfn, call, other[0], st, gkey)
                 elif isinstance(st, ast.If) and raises_checksum(st) is False and 'endswith' in src(st.test) and any(
